@@ -67,9 +67,23 @@ def modifier_thermal_cases(tier):
         }
 
 
+def modifier_new_entry_cases(tier):
+    """ODE modifiers on a network of two blocks that no reaction couples (H/H2 and C/O/CO): a modifier whose
+    dependency lies in the other block creates a Jacobian entry that exists *only* because of the modifier (new
+    non-zero in the sparse layouts, new mark in the pattern file)"""
+    base = [[["H", "H"], ["H2"]], [["C", "O"], ["CO"]]]
+    sp = ["H", "H2", "C", "O", "CO"]
+    for tgt in sp if tier != "quick" else ["H2", "C"]:
+        for d in [(x,) for x in sp] + [("H", "CO"), ("CO", "CO"), ("H2", "O")]:
+            yield {"reactions": base, "ode_modifier": {tgt: {"factors": ["-2.5e-3"], "reactants": [list(d)]}}, "family": "MOD-NEW"}
+    for cool in ([["CIC_HI"]] if tier == "quick" else [["CIC_HI"], ["CIC_HI", "RC_HII"]]):
+        yield {"reactions": base + [[["H", "e-"], ["H+", "e-", "e-"]]], "cooling": cool, "ode_modifier": {"CO": {"factors": ["0.5"], "reactants": [["H+"]]}, "H+": {"factors": ["f"], "reactants": [["C", "O"]]}}, "family": "MOD-NEW"}
+
+
 def cases(tier):
     yield from oc.enum_examples(tier)  # slowest first
     yield from modifier_thermal_cases(tier)
+    yield from modifier_new_entry_cases(tier)
     yield from oc.enum_special(tier)
     yield from oc.enum_S1(tier)
     yield from oc.enum_S2(tier)
